@@ -390,7 +390,7 @@ Definition idem_hypb alnum cfg segs : bool := forallb (fun b : bool => b) (idem_
 
 (* ------------------------------------------------------------------ *)
 (* Acceptance predicate of Proofs/LexerCrlfProofs.v (lex_crlf) / FormatCrlfLinkProofs.v (format_crlf_input_linked), evaluated by the
-   driver unit `crlfhyp`: no token text contains a LF or a CR; a block comment or directive token has its closing delimiter
+   driver unit `crlfhyp`: no token text contains a LF or a CR; a directive token has its closing delimiter
    (copies of the definitions of Proofs/LexerRelayoutProofs.v, equal to them by FormatCrlfLinkProofs.crlf_link_okb_eq) *)
 Definition lk_comment_body (b : byte) (c : bytes) : BlockCommentKind * bytes :=
   if b =? 123 then (BCK_Brace, c) else (BCK_ParenStar, tl c).
@@ -404,11 +404,16 @@ Definition lk_closedb (b : byte) (q : bytes) (ty : RawTokenType) : bool :=
   | RTT_ConditionalDirective _ | RTT_CompilerDirective => lk_dir_terminated (fst (lk_comment_body b q)) (tl (snd (lk_comment_body b q)))
   | _ => false
   end.
+Definition lk_open_commentb (b : byte) (q : bytes) (ty : RawTokenType) : bool :=
+  match ty with
+  | RTT_Comment ck => negb (match ck with CoK_InlineLine | CoK_IndividualLine => true | _ => false end) && lk_comment_unterminated b q
+  | _ => false
+  end.
 Definition crlf_seg_okb (sg : seg) : bool :=
   match sg with
   | (_, [], _) => true
   | (_, b :: q, ty) =>
       forallb (fun x => negb (is_eol x)) (b :: q)
-      && (negb ((b =? 123) || ((b =? 40) && next_is 42 q)) || lk_closedb b q ty)
+      && (negb ((b =? 123) || ((b =? 40) && next_is 42 q)) || lk_closedb b q ty || lk_open_commentb b q ty)
   end.
 Definition crlf_link_okb (segs : list seg) : bool := forallb crlf_seg_okb segs.
